@@ -22,6 +22,9 @@ struct Agent { at: Option<&'static str>, gen: u64, done: bool, panicked: bool }
 struct Ctl { m: Mutex<Vec<Agent>>, cv: Condvar }
 static CTL: OnceLock<Ctl> = OnceLock::new();
 static STOP: AtomicBool = AtomicBool::new(false);
+static HELPER_BUSY: AtomicBool = AtomicBool::new(false);
+/// threads of this case are stuck for good (a real deadlock): no further case can be run in this process
+static FATAL: AtomicBool = AtomicBool::new(false);
 thread_local! { static AGENT: Cell<Option<usize>> = Cell::new(None); }
 fn ctl() -> &'static Ctl { CTL.get_or_init(|| Ctl { m: Mutex::new(vec![]), cv: Condvar::new() }) }
 
@@ -91,8 +94,14 @@ fn run_case(seed: u64, lean: &mut Lean, hist: &mut BTreeMap<String, u64>, sample
     let starve = r.chance(1, 3);
     let nk = if starve { 4 } else { r.range(1, 2) };
     let progs: Vec<Vec<Vec<u8>>> = (0..nw).map(|_| (0..r.range(if starve { 6 } else { 2 }, if thorough || starve { 8 } else { 6 })).map(|_| vec![b'x'; match r.below(4) { 0 => 40, 1 => 500, 2 => 900, _ => 1500 }]).collect()).collect();
+    // half of the cases run with a worker channel of 2-6 messages, so that "channel full" is reached:
+    // rotation requests and compaction requests get dropped, a worker that rotated has to flush right away
+    let cap: usize = if r.chance(1, 2) { r.range(2, 6) } else { 1000 };
     let scratch = Scratch::new("stall");
+    fjall::verif::set_worker_channel_capacity(cap);
     let db = Database::builder(scratch.join("db")).worker_threads_unchecked(0).journal_compression(fjall::CompressionType::None).open().unwrap();
+    fjall::verif::set_worker_channel_capacity(0);
+    if cap < 1000 { *hist.entry("cases-with-a-small-channel".into()).or_insert(0) += 1; }
     let ks = db.keyspace("a", || KeyspaceCreateOptions::default().max_memtable_size(LIMIT)).unwrap();
     let n = nw + nk;
     STOP.store(false, Ordering::Release);
@@ -109,7 +118,7 @@ fn run_case(seed: u64, lean: &mut Lean, hist: &mut BTreeMap<String, u64>, sample
     let t = Duration::from_secs(60);
     let short = Duration::from_millis(if thorough { 50 } else { 25 });
     let writes: Vec<String> = progs.iter().map(|p| p.len().to_string()).collect();
-    let _ = lean.ask(&format!("st.init 1000 4 1 0 1 {} {nk}", writes.join(",")));
+    let _ = lean.ask(&format!("st.init {cap} 4 1 0 1 {} {nk}", writes.join(",")));
     let mut at: Vec<&'static str> = vec![""; n];
     for i in 0..n { match wait_parked(i, t) { Some(p) => at[i] = p, None => { fails.push(Failure { kind: "harness", detail: format!("agent {i} did not start") }); } } }
     let mut holder: Option<usize> = None;     // who holds the journal lock, from the real events
@@ -249,6 +258,7 @@ fn run_case(seed: u64, lean: &mut Lean, hist: &mut BTreeMap<String, u64>, sample
                 let rotated = ks.sealed_memtable_count() > before;
                 if rotated { rotations += 1; } else { stale += 1; }
                 trace.push(format!("{who}: {}", if rotated { "rotates the memtable" } else { "stale rotation request" }));
+                if p == Some("worker.flush.begin") { *hist.entry("flush-right-away-channel-full".into()).or_insert(0) += 1; }
                 let phase = match p { Some("wk.idle") => "idle", Some("worker.flush.begin") => "flushWait", other => { fail!("impl-vs-oracle", "{who} did not finish its rotation within {t:?} (at {other:?}) - it waits for room in the worker channel"); break; } };
                 at[id] = p.unwrap();
                 if !nm && !(rep.starts_with("ok") && field(&rep, "phase") == phase) { fail!("model-vs-impl", "{who} handled a rotation request (rotated: {rotated}, now at {}), model: `{rep}`", at[id]); break; }
@@ -307,12 +317,22 @@ fn run_case(seed: u64, lean: &mut Lean, hist: &mut BTreeMap<String, u64>, sample
         let all_done = { let g = ctl().m.lock().unwrap(); g.iter().all(|a| a.done) };
         if all_done || Instant::now() > deadline { break; }
         for i in 0..n { if wait_parked(i, Duration::from_millis(2)).map(|p| p != "done").unwrap_or(false) { release(i); } }
-        // without workers stepping, a halted writer would spin: flush by hand
-        while fjall::verif::queued_worker_messages(&db) > 0 { if fjall::verif::verif_worker_step(&db).is_err() { break; } }
+        // without workers stepping, a halted writer would spin: flush by hand (on a thread of its own: if a halted
+        // writer holds the journal lock the flush never returns)
+        if fjall::verif::queued_worker_messages(&db) > 0 && !HELPER_BUSY.load(Ordering::Acquire) {
+            HELPER_BUSY.store(true, Ordering::Release);
+            let db2 = db.clone();
+            std::thread::spawn(move || { while fjall::verif::queued_worker_messages(&db2) > 0 { if fjall::verif::verif_worker_step(&db2).is_err() { break; } } HELPER_BUSY.store(false, Ordering::Release); });
+        }
     }
     fjall::verif::pause::set(Some(Arc::new(hook)));
     let finished = { let g = ctl().m.lock().unwrap(); g.iter().all(|a| a.done) };
-    if finished { for hnd in handles { let _ = hnd.join(); } } else { std::mem::forget(handles); std::mem::forget(scratch); fails.push(Failure { kind: "harness", detail: "agents did not finish".into() }); return (fails, false, h); }
+    if finished { for hnd in handles { let _ = hnd.join(); } } else {
+        std::mem::forget(handles); std::mem::forget(scratch); std::mem::forget(ks); std::mem::forget(db);
+        FATAL.store(true, Ordering::Release);
+        if fails.is_empty() { fails.push(Failure { kind: "impl-vs-oracle", detail: format!("after the schedule ended the threads did not finish within 30 s although every queued flush was run: writers at {:?}; trace: {}", &at[..nw], trace.join(" | ")) }); }
+        return (fails, false, h);
+    }
     if ctl().m.lock().unwrap().iter().any(|a| a.panicked) { fails.push(Failure { kind: "impl-vs-oracle", detail: format!("an agent thread panicked; trace: {}", trace.join(" | ")) }); }
     *hist.entry("steps".into()).or_insert(0) += steps as u64;
     *hist.entry("lock-block-probes".into()).or_insert(0) += probes;
@@ -350,7 +370,7 @@ fn main() {
             Ok((f, nt, h)) => { if nt { nontrivial.insert(h); } for x in f { all.push((cs, x)); } }
             Err(_) => all.push((cs, Failure { kind: "harness", detail: "panic in the stall engine".into() })),
         }
-        if all.len() > 3 { break; }
+        if all.len() > 3 || FATAL.load(Ordering::Acquire) { break; }
     }
     let mut res = J::obj();
     res.set("engine", J::s("stall"));
